@@ -21,7 +21,7 @@ def main():
     for i in ids:
         d = os.path.join(SEEDED, i)
         meta = json.load(open(os.path.join(d, "meta.json")))
-        prop = meta["property"] if meta["property"] in ("C01", "C02", "C04", "C05", "C07", "C08", "C10", "C13", "C14", "C15", "C17", "C20") else i.split("-")[0]
+        prop = meta["property"] if meta["property"] in ("C01", "C02", "C04", "C05", "C07", "C08", "C10", "C12", "C13", "C14", "C15", "C17", "C20") else i.split("-")[0]
         assert sh("git -C /repo status --porcelain").stdout.strip() == "", "/repo not clean"
         a = sh("git -C /repo apply %s/patch.diff" % d)
         if a.returncode != 0:
